@@ -9,6 +9,8 @@ pub struct Thing(pub u32);
 
 pub struct Widget(pub u32);
 
+pub struct Extra(pub u32);
+
 pub struct Token(pub String);
 
 #[derive(Debug)]
